@@ -11,6 +11,10 @@ NODEFAULT = "<nodefault>"
 RES_SRC = {"t": "Resource.thread", "a": "Resource.async_thread", "m": "Resource.main_thread"}
 
 
+class _RefError(Exception):
+    pass
+
+
 @dataclass(frozen=True)
 class Edge:
     src: int  # >=0: node index; <0: DAG parameter -1-src
@@ -161,6 +165,9 @@ class GProg:
             if st[0] in ("run", "pre"):
                 _, i_d, ser, _p = st[1]
                 return ("tok", i_d, ser, tuple(e.path))
+            if st[0] in ("deact", "error") and e.path:
+                # indexing the None of a deactivated call: the plain Python evaluation raises TypeError
+                raise _RefError(e.src)
             return None
 
         def truthy(v) -> bool:
@@ -180,12 +187,16 @@ class GProg:
             if i not in selected or (n.debug and not debug_on):
                 out[i] = ("skip", None, None)
                 continue
-            a = [val(e) for e in n.edges if e.kind == "pos"] + [("const", c) for c in n.consts]
-            kw = {f"k{e.src}" if e.src >= 0 else f"p{-1 - e.src}": val(e) for e in n.edges if e.kind == "kw"}
-            active = True
-            for e in n.edges:
-                if e.kind == "flag":
-                    active = truthy(val(e))
+            try:
+                a = [val(e) for e in n.edges if e.kind == "pos"] + [("const", c) for c in n.consts]
+                kw = {f"k{e.src}" if e.src >= 0 else f"p{-1 - e.src}": val(e) for e in n.edges if e.kind == "kw"}
+                active = True
+                for e in n.edges:
+                    if e.kind == "flag":
+                        active = truthy(val(e))
+            except _RefError:
+                out[i] = ("error", None, None)
+                continue
             if n.const_flag != NOFLAG:
                 active = bool(n.const_flag)
             if not active:
